@@ -16,8 +16,9 @@ RULE = ('(i) periodic_neighbours(axes) for every subset of axes (given as int, n
         'periodic axis: distinct values -> identical hierarchy on the shifted pixels, ties -> same trunk regions, assigned '
         'set and (no pruning) number of leaves; non-trivial = a structure that straddles an array edge')
 EXPLANATION = ('Theorems in props/C17.v (axis neighbour characterisation, coordinate shift, symmetry of the wrap-around '
-               'adjacency, C01/C03 statements instantiated for periodic grids, order independence of regions) + ties + '
-               'metamorphic oracle')
+               'adjacency, C01/C03 statements instantiated for periodic grids, order independence of regions; a cyclic shift '
+               'by any amount along any periodic axis is an automorphism of the adjacency graph, and every such isomorphism commutes '
+               'with the construction) + ties (compute; shift maps vs numpy.roll) + metamorphic oracle')
 
 
 def axes_forms(rng, per):
@@ -144,6 +145,9 @@ def explore(ctx):
     ctx.errors.extend(errs)
     for i in mism[:5]:
         ctx.tie_mismatch('compute with periodic adjacency', cases[i], refs[i], tie.model_compute_view(cases[i], 'c17_dump'))
+    # the cyclic shifts the theorems speak about are the ones numpy.roll performs
+    from . import relabel_common as rc
+    rc.run_relabel_tie(ctx, 'c17_relab', ['roll', 'roll', 'flip'], 200 if ctx.quick else 2000)
 
 
 def matches_known(k, case, fails, extra):
